@@ -3,8 +3,9 @@
 From Coq Require Import List NArith.
 From Coq.Strings Require Import Byte.
 From Coq Require Import Extraction ExtrOcamlBasic.
-From GI Require Import Lib.Bytes Gen.ImportsConsts Imports.Build Imports.Read Imports.ReadGrammar.
+From GI Require Import Lib.Bytes Gen.ImportsConsts Imports.Build Imports.Read Imports.ReadGrammar Imports.Scan.
 Extraction Language OCaml.
 Extraction "extracted/imports/model.ml" Byte.of_N Byte.to_N
   should_build spec_should_build match_file match_tags read_imports read_comments
-  wf_section render render_body paths.
+  wf_section render render_body paths
+  unquote scan_dir scan_files.
